@@ -308,6 +308,14 @@ redo:
 				tok, ch = l.scanNumber(ch, true)
 			}
 		default:
+			if ch >= utf8.RuneSelf {
+				// No operator is outside ASCII, and returning the character as
+				// its own token, as scanOperator does, would let characters in
+				// the Unicode private use area pass for the parser's token
+				// constants, which start at U+E000.
+				l.errorf("unexpected character %q", ch)
+				return stopTok
+			}
 			tok, ch = l.scanOperator(ch)
 		}
 	}
